@@ -265,7 +265,9 @@ def run(ck):
         yield valid, "valid"
         bits = [(i, b) for i in range(len(valid)) for b in range(8)]
         if len(bits) > budget:
-            bits = rng.sample(bits, budget)
+            # every bit of the framing (header, checksum, postamble) always; the payload sampled
+            edge = [(i, b) for (i, b) in bits if i < 12 or i >= len(valid) - 3]
+            bits = edge + rng.sample([x for x in bits if x not in set(edge)], max(0, budget - len(edge)))
         for i, b in bits:
             m = bytearray(valid)
             m[i] ^= 1 << b
@@ -294,9 +296,13 @@ def run(ck):
     for vi in range(nvalid):
         code = rng.choice(sorted(chip.CMD))
         n = rng.choice([0, 1, 2, 3, 5, 17, 252, 253, 254, 255, 262]) if vi % 2 else rng.randrange(0, 40)
+        if vi == 1:
+            n = 262          # at least one response in the extended format in every run
+        if vi == 3:
+            n = 7
         data = bytes(rng.randrange(256) for _ in range(n))
         pd = bytes([0xD5, code + 1]) + data
-        valid = std(pd) if len(pd) < 256 and rng.random() < 0.9 else ext(pd)
+        valid = std(pd) if len(pd) < 256 and (vi != 3 and rng.random() < 0.9) else ext(pd)
         for raw, kind in mutations(valid, 400 if ck.thorough else 120):
             if raw == ACK:
                 continue
